@@ -1474,6 +1474,11 @@ def _partial_cmp_ops(I, f, a):
     if isinstance(x, Agg) and isinstance(y, Agg):
         if not x.fields and not y.fields:
             return I.binop(op, x.discr, y.discr, "isize")
+        if op in ("Eq", "Ne"):
+            r = agg_eq(I, x, y)
+            if op == "Eq":
+                return r
+            return (not r) if isinstance(r, bool) else Sym("not", (r,), "bool")
         raise I.unanalysable("comparison of aggregates %r %r" % (x, y))
     if hasattr(x, "cmp_with") or hasattr(y, "cmp_with"):
         d = I.decide_cmp(op, x, y)
@@ -1561,3 +1566,342 @@ def _opt_default(I, f, a):
 @model("<std::string::String as std::default::Default>::default")
 def _string_default(I, f, a):
     return Bytes([], is_str=True)
+
+
+# ---------------------------------------------------------------------------------------- more iterator adaptors
+def _drive(I, it):
+    while True:
+        r = it.next(I)
+        if not is_some(r):
+            return
+        yield r.fields[0]
+
+
+@model("std::iter::Iterator::position", "<std::slice::Iter<'a, T> as std::iter::Iterator>::position")
+def _position(I, f, a):
+    it = _it(I, a[0])
+    n = 0
+    for x in _drive(I, it):
+        if I.truth(I.call_closure(a[1], [x])):
+            return some(n)
+        n += 1
+    return none()
+
+
+@model("std::iter::Iterator::rposition", "<std::slice::Iter<'a, T> as std::iter::Iterator>::rposition")
+def _rposition(I, f, a):
+    it = _it(I, a[0])
+    if hasattr(it, "back_index"):
+        while True:
+            idx = it.back_index(I)
+            r = it.next_back(I)
+            if not is_some(r):
+                return none()
+            if I.truth(I.call_closure(a[1], [r.fields[0]])):
+                return some(idx)
+    items = list(_drive(I, it))
+    for i in range(len(items) - 1, -1, -1):
+        if I.truth(I.call_closure(a[1], [items[i]])):
+            return some(i)
+    return none()
+
+
+@model("std::iter::Iterator::find", "<std::slice::Iter<'a, T> as std::iter::Iterator>::find")
+def _find(I, f, a):
+    it = _it(I, a[0])
+    for x in _drive(I, it):
+        if I.truth(I.call_closure(a[1], [Ref(Box_(x, "item"), ())])):
+            return some(x)
+    return none()
+
+
+@model("std::iter::Iterator::all", "<std::slice::Iter<'a, T> as std::iter::Iterator>::all")
+def _all(I, f, a):
+    it = _it(I, a[0])
+    for x in _drive(I, it):
+        if not I.truth(I.call_closure(a[1], [x])):
+            return False
+    return True
+
+
+@model("std::iter::Iterator::count")
+def _count(I, f, a):
+    it = into_iter(I, a[0])
+    return sum(1 for _ in _drive(I, it))
+
+
+@model("std::iter::Iterator::last")
+def _last(I, f, a):
+    it = into_iter(I, a[0])
+    last = None
+    for x in _drive(I, it):
+        last = x
+    return some(last) if last is not None else none()
+
+
+@model("std::iter::Iterator::nth")
+def _nth(I, f, a):
+    it = _it(I, a[0])
+    n = a[1]
+    if is_sym(n):
+        raise I.unanalysable("nth(symbolic)")
+    for i, x in enumerate(_drive(I, it)):
+        if i == n:
+            return some(x)
+    return none()
+
+
+@model("std::iter::Iterator::skip")
+def _skip(I, f, a):
+    it = into_iter(I, a[0])
+    n = a[1]
+    if is_sym(n):
+        raise I.unanalysable("skip(symbolic)")
+    for _ in range(n):
+        it.next(I)
+    return it
+
+
+@model("std::iter::Iterator::take_while")
+def _take_while(I, f, a):
+    it = into_iter(I, a[0])
+    pred = a[1]
+
+    class TW(It):
+        done = False
+
+        def next(self, I2):
+            if self.done:
+                return none()
+            r = it.next(I2)
+            if is_some(r) and I2.truth(I2.call_closure(pred, [Ref(Box_(r.fields[0], "item"), ())])):
+                return r
+            self.done = True
+            return none()
+    return TW()
+
+
+def agg_eq(I, x, y):
+    """structural equality of plain aggregates (Option<usize>, tuples, fieldless enums)"""
+    if isinstance(x, Agg) and isinstance(y, Agg):
+        if x.adt != y.adt or len(x.fields) != len(y.fields) and x.variant == y.variant:
+            if x.adt != y.adt:
+                raise I.unanalysable("equality of %s and %s" % (x.adt, y.adt))
+        if x.variant != y.variant:
+            return False
+        res = True
+        for a, b in zip(x.fields, y.fields):
+            r = agg_eq(I, deref(I, a), deref(I, b))
+            if r is False:
+                return False
+            if r is not True:
+                res = r if res is True else I.binop("BitAnd", res, r, "bool")
+        return res
+    if isinstance(x, Agg) or isinstance(y, Agg):
+        raise I.unanalysable("equality of aggregate and scalar")
+    return I.binop("Eq", x, y, "isize")
+
+
+@model("<std::option::Option<T> as std::cmp::PartialEq>::eq", "<std::option::Option<T> as std::cmp::PartialEq>::ne")
+def _option_eq(I, f, a):
+    x, y = deref(I, a[0]), deref(I, a[1])
+    for v in (x, y):
+        if hasattr(v, "discriminant") and not isinstance(v, Agg):
+            raise I.unanalysable("equality on a lazy option")
+    r = agg_eq(I, x, y)
+    if f["path"].endswith("::ne") or (f.get("res") or {}).get("path", "").endswith("::ne"):
+        if isinstance(r, bool):
+            return not r
+        return I.eval_not(r) if hasattr(I, "eval_not") else Sym("not", (r,), "bool")
+    return r
+
+
+@model("<std::option::Option<T> as std::ops::FromResidual<std::option::Option<std::convert::Infallible>>>::from_residual")
+def _opt_from_residual(I, f, a):
+    return none()
+
+
+@model("<std::result::Result<T, F> as std::ops::FromResidual<std::ops::Yeet<E>>>::from_residual")
+def _res_from_yeet(I, f, a):
+    return err(a[0])
+
+
+# ---------------------------------------------------------------------------------------- Option / Result combinators
+def _optv(I, v):
+    v = deref1(I, v) if isinstance(v, Ref) else v
+    if not (isinstance(v, Agg) and v.adt == OPTION):
+        raise I.unanalysable("Option combinator on %r" % (v,))
+    return v
+
+
+@model("std::option::Option::<T>::and_then")
+def _opt_and_then(I, f, a):
+    o = _optv(I, a[0])
+    return I.call_closure(a[1], [o.fields[0]]) if is_some(o) else none()
+
+
+@model("std::option::Option::<T>::map")
+def _opt_map(I, f, a):
+    o = _optv(I, a[0])
+    return some(I.call_closure(a[1], [o.fields[0]])) if is_some(o) else none()
+
+
+@model("std::option::Option::<T>::filter")
+def _opt_filter(I, f, a):
+    o = _optv(I, a[0])
+    if is_some(o) and I.truth(I.call_closure(a[1], [Ref(Box_(o.fields[0], "v"), ())])):
+        return o
+    return none()
+
+
+@model("std::option::Option::<T>::or")
+def _opt_or(I, f, a):
+    o = _optv(I, a[0])
+    return o if is_some(o) else a[1]
+
+
+@model("std::option::Option::<T>::or_else")
+def _opt_or_else(I, f, a):
+    o = _optv(I, a[0])
+    return o if is_some(o) else I.call_closure(a[1], [])
+
+
+@model("std::option::Option::<T>::unwrap_or_else")
+def _opt_unwrap_or_else(I, f, a):
+    o = _optv(I, a[0])
+    return o.fields[0] if is_some(o) else I.call_closure(a[1], [])
+
+
+@model("std::option::Option::<T>::unwrap_or_default")
+def _opt_unwrap_or_default(I, f, a):
+    o = _optv(I, a[0])
+    if is_some(o):
+        return o.fields[0]
+    ty = ((f.get("res") or {}).get("args") or f.get("args") or [""])[0]
+    if ty in INT_TYPES:
+        return False if ty == "bool" else 0
+    raise I.unanalysable("unwrap_or_default::<%s>" % ty)
+
+
+@model("std::option::Option::<T>::map_or_else")
+def _opt_map_or_else(I, f, a):
+    o = _optv(I, a[0])
+    return I.call_closure(a[2], [o.fields[0]]) if is_some(o) else I.call_closure(a[1], [])
+
+
+@model("std::option::Option::<T>::is_none_or")
+def _opt_is_none_or(I, f, a):
+    o = _optv(I, a[0])
+    return I.truth(I.call_closure(a[1], [o.fields[0]])) if is_some(o) else True
+
+
+@model("std::option::Option::<T>::ok_or")
+def _opt_ok_or(I, f, a):
+    o = _optv(I, a[0])
+    return ok(o.fields[0]) if is_some(o) else err(a[1])
+
+
+@model("std::option::Option::<T>::as_ref", "std::option::Option::<T>::as_mut", "std::option::Option::<T>::as_deref")
+def _opt_as_ref(I, f, a):
+    r = a[0]
+    o = deref(I, r)
+    if hasattr(o, "discriminant") and not isinstance(o, Agg):
+        d = o.discriminant(I)
+        return some(Ref(Box_(o.get_field(I, 0), "inner"), ())) if d == 1 else none()
+    o = _optv(I, o)
+    if is_some(o):
+        return some(Ref(ListSlot(o.fields, 0), ()))
+    return none()
+
+
+@model("std::option::Option::<&T>::copied", "std::option::Option::<&T>::cloned", "std::option::Option::<&mut T>::copied")
+def _opt_copied(I, f, a):
+    o = _optv(I, a[0])
+    return some(I.copy_val(deref1(I, o.fields[0]))) if is_some(o) else none()
+
+
+@model("std::option::Option::<T>::take")
+def _opt_take(I, f, a):
+    r = a[0]
+    o = _optv(I, I.load(r))
+    I.store(r, none())
+    return o
+
+
+@model("std::result::Result::<T, E>::map")
+def _res_map(I, f, a):
+    r = a[0]
+    return ok(I.call_closure(a[1], [r.fields[0]])) if r.variant == 0 else r
+
+
+@model("std::result::Result::<T, E>::and_then")
+def _res_and_then(I, f, a):
+    r = a[0]
+    return I.call_closure(a[1], [r.fields[0]]) if r.variant == 0 else r
+
+
+@model("std::result::Result::<T, E>::ok")
+def _res_ok(I, f, a):
+    r = a[0]
+    return some(r.fields[0]) if r.variant == 0 else none()
+
+
+@model("std::result::Result::<T, E>::err")
+def _res_err(I, f, a):
+    r = a[0]
+    return some(r.fields[0]) if r.variant == 1 else none()
+
+
+@model("std::result::Result::<T, E>::unwrap_or_else")
+def _res_unwrap_or_else(I, f, a):
+    r = a[0]
+    return r.fields[0] if r.variant == 0 else I.call_closure(a[1], [r.fields[0]])
+
+
+@model("std::result::Result::<T, E>::unwrap_or_default")
+def _res_unwrap_or_default(I, f, a):
+    r = a[0]
+    if r.variant == 0:
+        return r.fields[0]
+    ty = ((f.get("res") or {}).get("args") or f.get("args") or [""])[0]
+    if ty in INT_TYPES:
+        return False if ty == "bool" else 0
+    if ty == "f64":
+        return 0.0
+    raise I.unanalysable("unwrap_or_default::<%s>" % ty)
+
+
+@model("std::result::Result::<T, E>::or_else")
+def _res_or_else(I, f, a):
+    r = a[0]
+    return r if r.variant == 0 else I.call_closure(a[1], [r.fields[0]])
+
+
+@model("std::result::Result::<T, E>::map_or")
+def _res_map_or(I, f, a):
+    r = a[0]
+    return I.call_closure(a[2], [r.fields[0]]) if r.variant == 0 else a[1]
+
+
+@model("core::slice::<impl [T]>::first")
+def _slice_first(I, f, a):
+    v = deref(I, a[0])
+    if hasattr(v, "get"):
+        return v.get(I, 0)
+    el = as_elems(I, v)
+    return some(Ref(ListSlot(el, 0), ())) if el else none()
+
+
+@model("core::slice::<impl [T]>::split_last")
+def _slice_split_last(I, f, a):
+    raise I.unanalysable("split_last")
+
+
+@model("core::num::<impl usize>::min", "core::cmp::min", "std::cmp::min")
+def _cmp_min(I, f, a):
+    return _ord_min(I, f, a)
+
+
+@model("core::cmp::max", "std::cmp::max")
+def _cmp_max(I, f, a):
+    return _ord_max(I, f, a)
